@@ -9,7 +9,7 @@ CFG = {
     "technique": "Lean 4 proofs over an executable model of vxfw.go with arbitrary widget oracle (and an arbitrary set of failing handler calls); "
                  "model tied to the source by (a) Gen/VxfwCases.lean (switch arms of App.Run and App.handleCommand, statement skeletons of the ten "
                  "handler functions, regenerated every run, compared by theorem), (a') Gen/VxfwBodies.lean: the bodies of the six dispatcher functions "
-                 "translated into syntax; the bodies of focusHandler.handleEvent, mouseHandler.handleEvent and focusHandler.focusWidget are EXECUTED by an interpreter (Model/VxfwInterp.lean) and proved equal to "
+                 "translated into syntax; the bodies of focusHandler.handleEvent, mouseHandler.handleEvent, focusHandler.focusWidget, mouseHandler.mouseExit and mouseEnter are EXECUTED by an interpreter (Model/VxfwInterp.lean) and proved equal to "
                  "the model's dispatch incl. the returned error, and (b) two correspondence streams: unexported handlers through "
                  "verif_hooks_c15.go, and the real App.Run on a fake console",
     "rule": "C15: random widget sets (1..12 widgets, any subset capturing), random surface trees (depth <= 4, fan-out <= 3, overlapping "
@@ -27,7 +27,7 @@ CFG = {
                      "errors returned by Draw (layout) are outside the model (Run returns them)",
                      "the interpreter Model/VxfwInterp.lean (what a handler call, a type assertion w.(EventCapturer), app.handleCommand and a "
                      "return mean; a hit result is its widget) is the semantics of the Go subset handle_event_body_eq_model / "
-                     "mouse_handle_event_body_eq_model / focus_widget_body_eq_model speak about; updatePath, mouseExit, mouseEnter and mouseHandler.update are translated "
+                     "mouse_handle_event_body_eq_model / focus_widget_body_eq_model / mouse_exit_body_eq_model / mouse_enter_body_eq_model speak about; updatePath and mouseHandler.update are translated "
                      "(fully_recognised) but not interpreted (update is the model function inside the interpreted mouse dispatcher)"],
     "level_text": "vxfw routing, focus and hover, after the repairs of F115a/F115b/F43 in /repo. Proved for every widget behaviour (oracle), state, "
                   "history and nesting depth, without exclusions: key_routing (capture root->focused, target, bubble parent->root, stop at the first "
@@ -43,11 +43,12 @@ CFG = {
                   "with `if err != nil { return err }`, app.handleCommand, the consume test with `return nil`, the index loop with a checked path[i]) IS "
                   "eHandleEvent for every oracle/state/event/nesting budget: the new state and WHAT IS RETURNED (handle_event_body_eq_model, "
                   "handle_event_body_error), hence key_routing holds of the executed body (key_routing_body); the same for mouseHandler.handleEvent (mouse_handle_event_body_eq_model, "
-                  "mouse_routing_body: target = the deepest hit, read live from m.lastHits, which the dispatch never changes) and for focusHandler.focusWidget (focus_widget_body_eq_model: which error is returned where). commands_once_history_wf: no budget "
+                  "mouse_routing_body: target = the deepest hit, read live from m.lastHits, which the dispatch never changes) and for focusHandler.focusWidget (focus_widget_body_eq_model: which error is returned where), mouseExit and mouseEnter (mouse_exit_body_eq_model, mouse_enter_body_eq_model; "
+                  "mouse_exit_body_closes: the executed mouseExit empties the hit list). commands_once_history_wf: no budget "
                   "hypothesis for handlers that do not answer focus notifications with focus commands (run_never_stuck). F115c (recorded): two widgets answering "
                   "FocusIn with a focus command for each other exhaust every nesting budget (ping_pong_stuck, all fuels) - on the real code a fatal "
                   "stack overflow.",
-    "level_note": "Proved: 72 theorems (Props/C15 27, C15Err 7, C15Gen 12, C15Body 10, witnesses 16 showing the pre-fix code violating the statements and the fixed code meeting them). Validated by "
+    "level_note": "Proved: 76 theorems (Props/C15 27, C15Err 7, C15Gen 12, C15Body 14, witnesses 16 showing the pre-fix code violating the statements and the fixed code meeting them). Validated by "
                   "correspondence only: that the model (incl. the error plumbing) equals vxfw.go (0 mismatches expected on ~38k quick / ~500k thorough op "
                   "lines, both streams), Go's sort.Slice stability for <= 12 children, uint16 coordinate arithmetic (proved equal to integer "
                   "arithmetic for sizes < 65536, hit_list_is_under). Modelled not verified: stack overflow on unbounded refocus recursion (fuel; Witness.F115c proves the budget runs out for every budget for ping-pong handlers; "
